@@ -9,6 +9,7 @@ Semantic preservation of each rewrite is NOT decided.  Decided structural clause
   PIPELINE        every pass is applied to every rule; unroll precedes conversion; the restorer runs last
                   on the converted rules
 """
+import re
 from .. import facts, hirq, traverse
 from ..hirq import walk, kind, callee, where, peel, PathEnum, exits
 
@@ -40,9 +41,10 @@ EXEMPT = {
     ("OptimizedExpr::map_bottom_up::map_internal", "RestoreOnErr"):
         "never in this traversal's input: RestoreOnErr is constructed only by the closure the restorer passes "
         "to this very traversal, and a bottom-up map never revisits what the closure returns",
-    ("OptimizedExprTopDownIterator::iterate_expr", "RestoreOnErr"):
+    # the top-down iterator over OptimizedExpr (whichever of its methods selects the children)
+    ("OptimizedExprTopDownIterator::", "RestoreOnErr"):
         "what it hides already restores the stack on failure",
-    ("OptimizedExprTopDownIterator::iterate_expr", "RepOnce"):
+    ("OptimizedExprTopDownIterator::", "RepOnce"):
         "both back-ends wrap RepOnce in `sequence`, so its failure is already clean",
 }
 
@@ -74,6 +76,7 @@ def generic_traversals(meta, roots, enums):
     cg = hirq.CallGraph([meta])
     reach = cg.reachable(roots)
     out = []
+    pending = []
     for p in sorted(reach):
         fn = meta.fn(p)
         if fn is None or fn.get("impl_trait"):
@@ -95,6 +98,18 @@ def generic_traversals(meta, roots, enums):
             worklist = any(kind(n) == "Assign" and (hirq.place(n["l"]) or ("",))[0] == "self" for n in walk(fn["body"]))
             if selfrec or worklist:
                 out.append((fn, e))
+            else:
+                pending.append((fn, e))
+    # a child selector split off a traversal: it matches the variants and hands the children back (its result type
+    # mentions the enum by reference) to a caller that is a worklist/recursive traversal of the same family
+    tpaths = set(f["path"] for (f, e) in out)
+    worklisty = set(p for p in reach if meta.fn(p) is not None and any(
+        kind(n) == "Assign" and (hirq.place(n["l"]) or ("",))[0] == "self" for n in walk(meta.fn(p)["body"])))
+    for (fn, e) in pending:
+        if e.split("::")[-1] in str(fn.get("output", "")):
+            callers = set(pp for (pp, n) in cg.callers_of(fn["path"]))
+            if callers & (tpaths | worklisty):
+                out.append((fn, e, "returns-children"))
     return out, cg, reach
 
 
@@ -115,13 +130,15 @@ def trav(rep, meta, sfx):
             if kind(n) == "Call" and callee(n) == OEXPR + "::RestoreOnErr":
                 ctor_sites.append((b["path"], n))
     ctor_ok = bool(ctor_sites) and all(p.startswith("pest_meta::optimizer::restorer::") for p, _ in ctor_sites)
-    for fn, e in ts:
-        inst, holes = traverse.check(meta, fn, e)
+    for item in ts:
+        fn, e = item[0], item[1]
+        inst, holes = traverse.check(meta, fn, e, returns_children=(len(item) > 2))
         short = fn["path"].replace("pest_meta::", "")
         for (v, w) in inst:
             r.instance("%s:%s" % (short, v), w)
         for (v, reason, w) in holes:
-            ex = next((why for (sfx_fn, var), why in EXEMPT.items() if fn["path"].endswith(sfx_fn) and var == v), None)
+            ex = next((why for (sfx_fn, var), why in EXEMPT.items()
+                       if (fn["path"].endswith(sfx_fn) or (sfx_fn.endswith("::") and sfx_fn in fn["path"])) and var == v), None)
             if ex is not None:
                 if (v == "RestoreOnErr" and "map_bottom_up" in fn["path"]) and not ctor_ok:
                     r.violation("%s:%s" % (short, v), w, "exemption no longer justified: RestoreOnErr is "
@@ -200,7 +217,7 @@ def role_fns(meta):
     for fn in cands:
         if fn.get("output") == OEXPR and fn.get("inputs") == [EXPR] and any(callee(n) == fn["path"] for n in walk(fn["body"])):
             out["convert"] = fn
-    generic = set(f["path"] for (f, e) in generic_traversals(meta, [OPTIMIZE], [EXPR, OEXPR])[0])
+    generic = set(item[0]["path"] for item in generic_traversals(meta, [OPTIMIZE], [EXPR, OEXPR])[0])
     for fn in cands:
         if fn["path"] in generic or fn is out["convert"]:
             continue
@@ -342,17 +359,18 @@ def vm_absorbing_variants(vm):
         vs = [v.split("::")[-1] for v in hirq.pat_variants(arm["pat"])]
         if not vs:
             continue
-        n = count_absorbed(arm["body"], fn["path"])
+        n = count_absorbed(arm["body"], fn["path"], vm)
         if n:
             for v in vs:
                 out[v] = n
     return out
 
 
-def count_absorbed(body, self_path):
+def count_absorbed(body, self_path, crate=None):
     """Number of recursive child translations whose Err is absorbed before any enclosing
     sequence/lookahead/restore_on_err/stack_push can clean up."""
     cnt = 0
+    depth = [0]
 
     def visit(n, shield, absorbed):
         nonlocal cnt
@@ -390,6 +408,15 @@ def count_absorbed(body, self_path):
                 for a in n["args"]:
                     if kind(a) == "Closure":
                         visit(a["body"], shield, absorbed)
+                return
+            h = crate.fn(p) if crate is not None and p.startswith("pest_vm::") and p != self_path else None
+            if h is not None and h.get("body") is not None and depth[0] < 3 and any(
+                    "OptimizedExpr" in str(i) for i in h.get("inputs", [])) and not any(
+                    kind(x) in ("Call", "MethodCall") and callee(x) == p for x in walk(h["body"])):
+                # a block of the arm moved into a private helper of the VM: its body runs in this context
+                depth[0] += 1
+                visit(h["body"], shield, absorbed)
+                depth[0] -= 1
                 return
             visit(n["recv"], shield, absorbed)
             for a in n["args"]:
@@ -724,6 +751,27 @@ def accum(rep, meta, sfx):
 EXPR_ENUMS = ("pest_meta::ast::Expr::", "pest_meta::optimizer::OptimizedExpr::")
 
 
+def produces_expression(scope):
+    """Does this code build or compute an expression (a constructor of Expr / OptimizedExpr, or a call returning one),
+    as opposed to just moving / borrowing / cloning pieces of what was matched?"""
+    for x in walk(scope):
+        if kind(x) not in ("Call", "MethodCall", "Struct"):
+            continue
+        cal = callee(x) if kind(x) != "Struct" else x.get("path")
+        if not isinstance(cal, str):
+            if "Expr" in str(x.get("ty", "")):
+                return True
+            continue
+        if cal.startswith(EXPR_ENUMS):
+            return True
+        if cal.startswith(("core::option::Option::", "alloc::boxed::Box", "core::clone::Clone", "core::ops::deref",
+                           "core::convert::", "core::borrow::", "alloc::borrow::")):
+            continue
+        if "Expr" in str(x.get("ty", "")) or "Rule" in str(x.get("ty", "")):
+            return True
+    return False
+
+
 def dropped(rep, meta, sfx):
     r = rep.rule("C05.DROPPED" + sfx, 2,
                  "a rewrite in an optimizer pass never discards an operand unseen: a pattern over an expression variant "
@@ -772,6 +820,8 @@ def dropped(rep, meta, sfx):
                 exempt = "the arm diverges"
             elif not any(s in cty for s in ("Expr", "Rule")):
                 exempt = "predicate / visitor context (%s)" % (cty or "()")
+            elif scope is not None and not produces_expression(scope):
+                exempt = "selector: the arm only hands back parts of the matched expression, it builds nothing"
             r.instance(key, where(p), "ignores %s; %s" % (", ".join(ignored), exempt or "REWRITE CONTEXT"))
             if not exempt:
                 r.violation(key, where(p),
